@@ -46,20 +46,14 @@ Proof. exact reachable_copy_id. Qed.
 Theorem C17_lasfile_partial : forall las,
   forallb (fun p => forallb item_ok (items (snd p))) las = true ->
   copy_las pickle_section las = las /\ copy_las deepcopy_section las = las.
-Proof.
-  intros las H. split; apply copy_las_id; auto.
-  - exact pickle_section_id.
-  - exact deepcopy_section_id.
-Qed.
+Proof. exact lasfile_copy_id. Qed.
 
 (* hence anything computed from the copy -- write() output in particular -- equals what is
    computed from the original *)
 Theorem C17_write_partial : forall (W : Type) (write : lasfile -> W) las,
   forallb (fun p => forallb item_ok (items (snd p))) las = true ->
   write (copy_las pickle_section las) = write las /\ write (copy_las deepcopy_section las) = write las.
-Proof.
-  intros W write las H. destruct (C17_lasfile_partial las H) as [A B]. rewrite A, B. auto.
-Qed.
+Proof. exact lasfile_write_same. Qed.
 
 (* ---- the pinned tree --------------------------------------------------------------------- *)
 (* F12: __reduce__ handed the SESSION mnemonic to the constructor *)
